@@ -68,7 +68,7 @@ type sqlProg struct {
 	cur       string
 	notNullB  bool
 	log       []string
-	failedStm bool // a statement failed on this connection since the table was (re)opened
+	failedStm bool // a statement failed (was rolled back) at some point of this program
 	inTx      bool
 	txWrote   bool
 	aborted   bool
@@ -103,7 +103,8 @@ func (p *sqlProg) mk() bool {
 		p.fail("create: " + err.Error())
 		return false
 	}
-	p.failedStm = false
+	// failedStm is NOT reset: a phantom row left by a failed statement (F24) is published by the next
+	// successful commit, so it survives a re-open (sql-5-347: the first query that showed it came after one)
 	return true
 }
 
